@@ -464,6 +464,7 @@ req_sketch<T, C, A> req_sketch<T, C, A>::deserialize(std::istream& is, const Ser
     throw std::invalid_argument("Possible corruption: k must be even and >= " + std::to_string(req_constants::MIN_K)
         + ", got " + std::to_string(k));
   }
+  if (num_levels == 0) throw std::invalid_argument("Possible corruption: number of levels must be at least 1");
 
   optional<T> tmp; // space to deserialize min and max
   optional<T> min_item;
@@ -544,6 +545,7 @@ req_sketch<T, C, A> req_sketch<T, C, A>::deserialize(const void* bytes, size_t s
     throw std::invalid_argument("Possible corruption: k must be even and >= " + std::to_string(req_constants::MIN_K)
         + ", got " + std::to_string(k));
   }
+  if (num_levels == 0) throw std::invalid_argument("Possible corruption: number of levels must be at least 1");
 
   optional<T> tmp; // space to deserialize min and max
   optional<T> min_item;
